@@ -115,7 +115,8 @@ pub fn default_guards() -> Vec<String> {
     [
         "update_inside_open_or_overlapping_txn", // D5, D28, D25
         "update_of_uniquely_constrained_column", // D7, D24
-        "drop_table_inside_session",             // D6
+        "drop_of_table_with_pending_drop",       // D27 (pending half), in the catalog
+        "table_name_reuse_while_session_open",   // U2, in the catalog's name index
         "concurrent_writers_same_row",           // D8
         "concurrent_inserts_same_key",           // D10
         "update_on_table_with_unique_index",     // D7
@@ -204,7 +205,7 @@ impl Gen {
 
     fn table_def(&mut self) -> Stmt {
         let mut name = format!("t{}", self.tables_made);
-        if self.p.ddl_rich && self.rng.chance(60) {
+        if self.p.ddl_rich && self.rng.chance(60) && !(self.p.has("table_name_reuse_while_session_open") && !self.sess.is_empty()) {
             // a dropped (or never committed) name can be reused
             let probe = self.model.begin();
             let free: Vec<String> = self
@@ -1206,7 +1207,8 @@ impl Gen {
                     let busy = self.model.tables[ti].rows.iter().any(|r| {
                         r.versions.iter().map(|v| v.writer).chain(r.deleters.iter().copied()).chain([r.creator]).any(|w| self.model.txs[w].status == TxStatus::Active)
                     }) || self.model.txs[self.model.tables[ti].creator].status == TxStatus::Active;
-                    if !busy && !(in_sess.is_some() && self.p.has("drop_table_inside_session")) {
+                    let being_dropped = self.model.tables[ti].droppers.iter().any(|d| self.model.txs[*d].status == TxStatus::Active);
+                    if !busy && !(in_sess.is_some() && self.p.has("drop_table_inside_session")) && !(being_dropped && self.p.has("drop_of_table_with_pending_drop")) {
                         match in_sess {
                             Some(k) => self.emit(Event::Exec(k, Stmt::DropTable { name })),
                             None => {
